@@ -106,6 +106,18 @@ def _expand(payload, sub):
         sc['steps'].append(dict(r2.choice(users), step='user_again'))
     # a second evaluation of the whole chain in the same interpreter (fresh step objects, fresh sources): the outcome of a run
     # does not depend on which pipelines the process has run before.  Only for chains without effects outside the process.
+    if r2.random() < 0.2:
+        # motif: keyed resources concatenated at the end of the chain
+        try:
+            trial = dict(sc, steps=sc['steps'] + [{'step': 'set_primary_key', 'key': ['_id'], 'resources': None}])
+            cat = ST.gen_concatenate(r2, ST.D(PL.describe(trial, {'calls': {}})), ST.G())
+            if cat:
+                cat['target'] = 'catm'
+                trial['steps'] = trial['steps'] + [cat]
+                PL.describe(trial, {'calls': {}})
+                sc['steps'] = trial['steps']
+        except Exception:  # noqa
+            pass
     if r2.random() < 0.3 and not any(('dump' in sp['step']) or sp['step'] in ('stream', 'unstream', 'checkpoint') for sp in sc['steps']):
         sc['again'] = r2.choice(['results', 'datastream'])
     return sc
@@ -202,7 +214,7 @@ def _run_variant_once(payload, sub):
     from datapackage import Package
     from ..core.ctx import jsonable
     sc, var = payload['sc'], payload['variant']
-    env = {'calls': {}}
+    env = {'calls': {}, 'reuse_targets': bool(payload.get('twice'))}
 
     class Materialised(DF.DataStreamProcessor):
         def __init__(self, desc, rows):
